@@ -18,7 +18,7 @@ yields are not followed (a consumer that stops polling performs no further I/O).
 """
 from collections import deque
 
-from mirlite import ty_str, callee, op_place
+from mirlite import ty_str, callee, op_place, bool_transfer, bool_switch_target
 from flow import Tracer
 from codec_rules import agg_tree
 
@@ -177,7 +177,7 @@ def monitor(eg, input_ty, output_enum, final_variants, all_variants, data_reques
     b = eg.b
     findings = []
     seen = {}
-    start = (0, ("S0", False, None))
+    start = (0, ("S0", False, None), frozenset())
     dq = deque([start])
     seen[start] = None
     reported = set()
@@ -193,7 +193,7 @@ def monitor(eg, input_ty, output_enum, final_variants, all_variants, data_reques
         out.reverse()
         # compress to event-bearing blocks
         evs = []
-        for (bb, ms) in out:
+        for (bb, ms, _kn) in out:
             if bb in eg.event:
                 e = eg.event[bb]
                 evs.append("bb%d:%s%s" % (bb, e[1] if e[0] != "end" else "END",
@@ -357,7 +357,11 @@ def monitor(eg, input_ty, output_enum, final_variants, all_variants, data_reques
     while dq:
         state = dq.popleft()
         n_states += 1
-        bb, ms = state
+        bb, ms, kn = state
+        # bool temporaries (`let last = matches!(packet, ..); ..; if last { break }`) are followed path-sensitively
+        known = bool_transfer(b, bb, kn)
+        only = bool_switch_target(b, bb, known)
+        kn2 = frozenset(known.items())
         ev = eg.event.get(bb)
         ms2 = ms
         if ev is not None:
@@ -368,10 +372,12 @@ def monitor(eg, input_ty, output_enum, final_variants, all_variants, data_reques
                 continue
         # pending I/O results must be examined: leaving S1/R1/W1 through an unlabelled path
         for label, nb in eg.edges.get(bb, []):
+            if only is not None and nb != only:
+                continue
             ms3 = step_edge(ms2, label, state)
             if ms3 is None:
                 continue
-            ns = (nb, ms3)
+            ns = (nb, ms3, kn2)
             if ns not in seen:
                 seen[ns] = state
                 dq.append(ns)
